@@ -173,26 +173,33 @@ void list_output_java(
 
   Memory *memory = &asm_context->memory;
 
-  count = disasm_java(
-    memory,
-    start,
-    instruction,
-    sizeof(instruction),
-    asm_context->flags,
-    &cycles_min,
-    &cycles_max);
-
-  hex[0] = 0;
-
-  for (n = 0; n < count; n++)
+  while (start < end)
   {
-    opcode = memory->read8(start + n);
+    count = disasm_java(
+      memory,
+      start,
+      instruction,
+      sizeof(instruction),
+      asm_context->flags,
+      &cycles_min,
+      &cycles_max);
 
-    snprintf(temp, sizeof(temp), "%02x ", opcode);
-    strcat(hex, temp);
+    hex[0] = 0;
+
+    for (n = 0; n < count; n++)
+    {
+      opcode = memory->read8(start + n);
+
+      snprintf(temp, sizeof(temp), "%02x ", opcode);
+      strcat(hex, temp);
+    }
+
+    fprintf(asm_context->list, "0x%04x: %-20s %-40s\n", start, hex, instruction);
+
+    if (count < 1) { break; }
+
+    start += count;
   }
-
-  fprintf(asm_context->list, "0x%04x: %-20s %-40s\n", start, hex, instruction);
 }
 
 void disasm_range_java(
